@@ -80,7 +80,7 @@ class CodemodRegistry:
         if codemod_exclude and not codemod_include:
             base_codemods = {}
             patterns = [
-                re.compile(exclude.replace("*", ".*"))
+                _wildcard_to_regex(exclude)
                 for exclude in codemod_exclude
                 if "*" in exclude
             ]
@@ -88,7 +88,7 @@ class CodemodRegistry:
 
             for codemod in self.codemods:
                 if codemod.id in names or any(
-                    pat.match(codemod.id) for pat in patterns
+                    pat.fullmatch(codemod.id) for pat in patterns
                 ):
                     continue
 
@@ -102,8 +102,10 @@ class CodemodRegistry:
         matched_codemods: dict[str, BaseCodemod] = {}
         for name in codemod_include:
             if "*" in name:
-                pat = re.compile(name.replace("*", ".*"))
-                pattern_matches = [code for code in self.codemods if pat.match(code.id)]
+                pat = _wildcard_to_regex(name)
+                pattern_matches = [
+                    code for code in self.codemods if pat.fullmatch(code.id)
+                ]
                 for code in pattern_matches:
                     matched_codemods.setdefault(code.id, code)
                 if not pattern_matches:
@@ -125,6 +127,11 @@ class CodemodRegistry:
     ) -> list[dict]:
         codemods = self.match_codemods(codemod_include, codemod_exclude)
         return [codemod.describe() for codemod in codemods]
+
+
+def _wildcard_to_regex(pattern: str) -> re.Pattern:
+    """`*` is the only wildcard; everything else is literal and the whole id must match."""
+    return re.compile(".*".join(re.escape(part) for part in pattern.split("*")))
 
 
 def load_registered_codemods(ep_filter: Optional[Callable[[EntryPoint], bool]] = None):
